@@ -342,6 +342,45 @@ def mode_bracketing(sym):
 
 
 
+def block_discipline(sym):
+    """symbolic_mode(query, mode): the mode found on entry is saved BEFORE anything else, the block's mode is set once, the
+       generator yields once, and the saved mode is written back in the finally clause (after the optional query.__exit__());
+       rule_mode delegates to symbolic_mode(query, EQLMode.Rule).  Anything else is refused."""
+    fn = find(sym, ast.FunctionDef, 'symbolic_mode')
+    b = body_wo_doc(fn)
+    need(len(b) == 2 and isinstance(b[0], ast.Assign) and isinstance(b[1], ast.Try), 'symbolic_mode: expected `prev = _symbolic_mode.get()` then try/finally')
+    need(len(b[0].targets) == 1 and isinstance(b[0].targets[0], ast.Name), 'symbolic_mode: the entry mode is not saved in a local')
+    prev = b[0].targets[0].id
+    need(ast.dump(b[0].value) == ast.dump(ast.parse('_symbolic_mode.get()').body[0].value), 'symbolic_mode: the saved value is not the current mode')
+    t = b[1]
+    need(not t.handlers and not t.orelse, 'symbolic_mode: unexpected except/else clause')
+
+    def is_query_guard(st, call):
+        return (isinstance(st, ast.If) and not st.orelse and len(st.body) == 1 and
+                ast.dump(st.test) == ast.dump(ast.parse('query is not None').body[0].value) and
+                ast.dump(st.body[0]) == ast.dump(ast.parse(call).body[0]))
+    body = list(t.body)
+    if body and is_query_guard(body[0], 'query.__enter__(in_rule_mode=True)'):
+        body = body[1:]
+    need(len(body) == 2 and ast.dump(body[0]) == ast.dump(ast.parse('_set_symbolic_mode(mode)').body[0]),
+         'symbolic_mode: the block mode is not set by exactly one _set_symbolic_mode(mode)')
+    need(isinstance(body[1], ast.Expr) and isinstance(body[1].value, ast.Yield), 'symbolic_mode: expected exactly one yield after setting the mode')
+    fin = list(t.finalbody)
+    if fin and is_query_guard(fin[0], 'query.__exit__()'):
+        fin = fin[1:]
+    need(len(fin) == 1 and ast.dump(fin[0]) == ast.dump(ast.parse(f'_set_symbolic_mode({prev})').body[0]),
+         'symbolic_mode: the finally clause does not write back the mode saved on entry')
+    rm = body_wo_doc(find(sym, ast.FunctionDef, 'rule_mode'))
+    need(len(rm) == 1 and isinstance(rm[0], ast.With) and len(rm[0].items) == 1 and
+         ast.dump(rm[0].items[0].context_expr) == ast.dump(ast.parse('symbolic_mode(query, EQLMode.Rule)').body[0].value) and
+         len(rm[0].body) == 1 and isinstance(rm[0].body[0], ast.Expr) and isinstance(rm[0].body[0].value, ast.Yield),
+         'rule_mode: does not simply delegate to symbolic_mode(query, EQLMode.Rule)')
+    setter = body_wo_doc(find(sym, ast.FunctionDef, '_set_symbolic_mode'))
+    need(len(setter) == 1 and ast.dump(setter[0]) == ast.dump(ast.parse('_symbolic_mode.set(mode)').body[0]),
+         '_set_symbolic_mode: does not simply set the context variable')
+    return True
+
+
 def rule_builders(rule):
     """rule.refinement / rule.alternative_or_next: how the new operator is wrapped around the current node and linked into the
     operator above it.  Recognised shapes only; anything else is refused."""
@@ -411,6 +450,42 @@ else:
     return ref_left, ref_relink, climb, alt_relink
 
 
+def lazy_iteration(hd):
+    """hashed_data.HashedIterable.__iter__: first the memoised values, then the remainder of the wrapped iterator; for every pulled
+    element: is one that is already memoised skipped, and is a new one memoised BEFORE it is handed out?
+    Recognised body:  yield from self.values.values()  ;  for v in self.iterable: [if v.id_ in self.values: continue]
+                      { self.values[v.id_] = v , yield v } in either order.   The memoising loop may live in a helper generator
+    of the same class that __iter__ delegates to with `yield from self.<helper>()`."""
+    cls = find(hd, ast.ClassDef, 'HashedIterable')
+    it = method(cls, '__iter__')
+    b = body_wo_doc(it)
+    D = lambda src: ast.dump(ast.parse(src).body[0])
+    need(len(b) == 2 and ast.dump(b[0]) == D("yield from self.values.values()"), 'HashedIterable.__iter__: does not start by yielding the memoised values')
+    loop = b[1]
+    if isinstance(loop, ast.Expr) and isinstance(loop.value, ast.YieldFrom) and isinstance(loop.value.value, ast.Call) \
+            and isinstance(loop.value.value.func, ast.Attribute) and isinstance(loop.value.value.func.value, ast.Name) \
+            and loop.value.value.func.value.id == 'self' and not loop.value.value.args:
+        helper = method(cls, loop.value.value.func.attr)
+        hb = body_wo_doc(helper)
+        need(len(hb) == 1, 'HashedIterable.__iter__: unrecognised helper generator')
+        loop = hb[0]
+    need(isinstance(loop, ast.For) and isinstance(loop.target, ast.Name) and loop.target.id == 'v'
+         and ast.dump(loop.iter) == ast.dump(ast.parse('self.iterable').body[0].value) and not loop.orelse,
+         'HashedIterable.__iter__: the second part is not `for v in self.iterable`')
+    stmts = [ast.dump(x) for x in loop.body]
+    skip = D("if v.id_ in self.values:\n    continue")
+    rec, yld = D("self.values[v.id_] = v"), D("yield v")
+    skips = bool(stmts) and stmts[0] == skip
+    rest = stmts[1:] if skips else stmts
+    if rest == [rec, yld]:
+        before = True
+    elif rest == [yld, rec]:
+        before = False
+    else:
+        raise Refuse('HashedIterable.__iter__: unrecognised loop body')
+    return skips, before
+
+
 # ------------------------------------------------------------------------------------------------
 def emit(d):
     sym, ent, pred, utl = (parse(os.path.join(d, f)) for f in ('symbolic.py', 'entity.py', 'predicate.py', 'utils.py'))
@@ -423,7 +498,9 @@ def emit(d):
     pos = positional(pred)
     scal = scalar_types(utl)
     mb = mode_bracketing(sym)
+    bd = block_discipline(sym)
     rb = rule_builders(parse(os.path.join(d, 'rule.py')))
+    lz = lazy_iteration(parse(os.path.join(d, 'hashed_data.py')))
     o = []
     o.append("(* Generated.v — REGENERATED ON EVERY RUN by translator/eql2coq.py from /repo's current source. Do not edit. *)")
     o.append("From EQL Require Import Base Values.\n")
@@ -487,6 +564,8 @@ def emit(d):
     o.append("(* An.evaluate / The.evaluate: how the result generators bracket the symbolic mode (see Mode.v) *)")
     for k, v in mb.items():
         o.append(f"Definition {k} : bool := {'true' if v else 'false'}.")
+    o.append("(* symbolic_mode / rule_mode: the mode found on entry is saved first and written back in the finally clause *)")
+    o.append(f"Definition block_restores_entry_mode : bool := {'true' if bd else 'false'}.")
     o.append("")
     o.append("(* rule.refinement / rule.alternative_or_next: how the new operator is linked into the tree (see RuleTree.v) *)")
     o.append("Inductive relink := RelinkNone | RelinkRightOnly | RelinkSide.")
@@ -495,6 +574,10 @@ def emit(d):
     o.append(f"Definition refinement_relink : relink := {rb[1]}.")
     o.append(f"Definition alternative_climb : climbing := {rb[2]}.")
     o.append(f"Definition alternative_relink : relink := {rb[3]}.")
+    o.append("")
+    o.append("(* hashed_data.HashedIterable.__iter__: the lazily consumed, memoised domain (see Lazy.v) *)")
+    o.append(f"Definition iter_skips_memoised : bool := {'true' if lz[0] else 'false'}.")
+    o.append(f"Definition iter_memoises_before_yield : bool := {'true' if lz[1] else 'false'}.")
     return "\n".join(o) + "\n"
 
 
